@@ -2218,6 +2218,21 @@ void RecursiveParser::processImport(
     // パス解決
     std::string resolved_path = resolveModulePath(module_path);
 
+    // Every import is parsed by a nested parser instance, which processes the
+    // module's own imports in turn. A module that imports itself, or a cycle
+    // a -> b -> a, would recurse without end: a module whose import is already
+    // in progress further up is not entered again (its definitions are being
+    // collected there).
+    static std::set<std::string> imports_in_progress;
+    if (!imports_in_progress.insert(resolved_path).second) {
+        return;
+    }
+    struct ImportInProgress {
+        std::set<std::string> &paths;
+        std::string path;
+        ~ImportInProgress() { paths.erase(path); }
+    } import_in_progress{imports_in_progress, resolved_path};
+
     if (debug_mode_) {
         std::cerr << "[IMPORT] Processing import: " << module_path << " -> "
                   << resolved_path << std::endl;
